@@ -27,6 +27,3 @@ void *_ZNSo9_M_insertIbEERSoT_(void *o, _Bool v) { (void)v; return o; }
 void *_ZNSo3putEc(void *o, uint8_t c) { (void)c; return o; }
 void *_ZNSo5flushEv(void *o) { return o; }
 void *_ZSt4endlIcSt11char_traitsIcEERSt13basic_ostreamIT_T0_ES6_(void *o) { return o; }
-/* std::cerr / std::cout objects: opaque storage */
-uint8_t g__ZSt4cerr[512];
-uint8_t g__ZSt4cout[512];
